@@ -194,6 +194,47 @@ theorem insert_converts_each_epoch (cv : Conv) (t : String) (ob : Obj) (hn : nee
   refine ⟨r', hr', ?_, convRows_length cv t ob⟩
   simp [convRows, hn, hr, hr']
 
+/-- **extending a time / time-delta field** (field level, memo has seen neither array): the extended field holds the
+epochs of self followed — at the field's `num_obs` — by the epochs of other, each converted to the scale and shown in
+the format of self when those differ; scale and format of self are kept; the field's `num_obs` is the new length -/
+theorem extend_time_field_content (us : Units) (nm : String) (k : Kind) (hk : k = .time ∨ k = .timeDelta)
+    (o no : Nat) (u : Option (List String)) (l : Nat)
+    (nm2 : String) (o2 no2 : Nat) (u2 : Option (List String)) (l2 : Nat) (s : St) (f' : Field) (s' : St)
+    (h : extendLeaf us nm k o no u l (.leaf nm2 k o2 no2 u2 l2) s = .ok (f', s'))
+    (ha : s.find o = none) (hb : s.find o2 = none) :
+    ∃ oa ob o' no' orr, s.heap[o]? = some oa ∧ s.heap[o2]? = some ob ∧
+      f' = .leaf nm k o' no' u l ∧ s'.heap[o']? = some orr ∧
+      orr.rows = insertAt oa.rows no (convRows s.conv oa.tag ob) ∧ orr.tag = oa.tag ∧ no' = orr.rows.length :=
+  extendLeaf_time_rows us nm k hk o no u l nm2 o2 no2 u2 l2 s f' s' h ha hb
+
+/-- **extending a sigma field** (field level): values and sigmas of other, column by column times the unit factor
+`Unit(other unit, own unit)`, appended at the field's `num_obs` — when the memo has not seen the array of self and holds
+only arrays that exist (true at every point of an `extend`: `MemoGood`) -/
+theorem extend_sigma_field_content (us : Units) (nm : String) (o no : Nat) (u : Option (List String)) (l : Nat)
+    (nm2 : String) (o2 no2 : Nat) (u2 : Option (List String)) (l2 : Nat) (s : St) (f' : Field) (s' : St)
+    (h : extendLeaf us nm .sigma o no u l (.leaf nm2 .sigma o2 no2 u2 l2) s = .ok (f', s'))
+    (ha : s.find o = none) (hbnd : ∀ k v, (k, v) ∈ s.memo → k < s.heap.length) :
+    ∃ oa ob fs o' no' orr, s.heap[o]? = some oa ∧ s.heap[o2]? = some ob ∧ unitFactors us u u2 = .ok fs ∧
+      f' = .leaf nm .sigma o' no' u l ∧ s'.heap[o']? = some orr ∧
+      (ob.tag = oa.tag ∨ ob.tag = "" → orr.rows = insertAt oa.rows no (ob.rows.map (scaleRow fs))) :=
+  extendLeaf_sigma_rows us nm o no u l nm2 o2 no2 u2 l2 s f' s' h ha hbnd
+
+/-- **the memo contract of `insert`** (the mechanism that keeps shared objects shared under `extend`): an `insert`
+that found neither array in the memo registers the new array under the id of `a` AND under the id `b` had when it was
+handed in (also when `b` was converted to another scale — fix 3762c2d); from then on every `insert` whose `a` is that
+array, and every `insert` of that `b` into an array the memo does not know, hands out the very same new array and
+changes nothing.  Full statement (`extend_keeps_sharing`: two paths that reach one array object of a dataset before
+`Dataset.extend` reach one array object afterwards) additionally needs that entries of dataset objects survive the
+loop over the fields; that part is not proved (measured by the correspondence, which compares object identities). -/
+theorem extend_keeps_sharing_partial (fuel a pos b : Nat) (s : St) (r : Nat) (s' : St)
+    (h : insertObj (fuel + 1) a pos b s = .ok (r, s')) (ha : s.find a = none) (hb : s.find b = none) :
+    (s'.find a = some r ∧ s'.find b = some r) ∧
+    (∀ fuel' pos' b', insertObj (fuel' + 1) a pos' b' s' = .ok (r, s')) ∧
+    (∀ fuel' a' pos', s'.find a' = none → insertObj (fuel' + 1) a' pos' b s' = .ok (r, s')) := by
+  obtain ⟨h1, h2⟩ := insertObj_registers fuel a pos b s r s' h ha hb
+  exact ⟨⟨h1, h2⟩, fun f' p' b' => insertObj_hit_a f' a p' b' s' r h1,
+    fun f' a' p' ha' => insertObj_hit_b f' a' p' b s' r ha' h2⟩
+
 /-- the sort key of a time field is the VALUE the field holds (third component of a row, after jd1 and jd2), not a
 number derived from the Julian date: epochs that are different in the field have different keys -/
 theorem sort_key_is_field_value (j1 j2 v : Scalar) (rest : Row) (hv : v ≠ .nan) :
@@ -442,6 +483,23 @@ example : convRows exConv "utc/mjd" exUtc = exUtc.rows := insert_same_format_kee
 example : timeKey [.num 2458849.5, .num (1/2), .num 58849.5000000001] = .num 58849.5000000001 :=
   sort_key_is_field_value _ _ _ _ (by decide)
 
+def exGps : Obj :=
+  { kind := .time, ndim := 1, cols := 1, rows := [[.num 2451540.5, .num 0, .num 2451540.5]], tag := "gps/jd" }
+/-- the hypotheses of `extend_time_field_content` / `extend_keeps_sharing_partial` are satisfiable: a GPS/jd field of one
+epoch extended by the UTC/mjd field of two epochs; the result (object 2) holds the three epochs in GPS/jd and is what a
+second insert of either array hands out -/
+example : (extendLeaf {} "t" .time 0 1 none 3 (.leaf "t" .time 1 2 none 3) { heap := [exGps, exUtc], conv := exConv }).toOption.map
+      (fun p => (p.2.heap.getD 2 default).rows.length) = some 3 := by decide +kernel
+example : (insertObj 3 0 1 1 { heap := [exGps, exUtc], conv := exConv }).toOption.map (fun p => (p.1, p.2.find 0, p.2.find 1))
+    = some (2, some 2, some 2) := by decide +kernel
+
+/-- the hypotheses of `extend_sigma_field_content` are satisfiable (ounce -> pound would need the table; same unit here) -/
+example : (extendLeaf {} "s" .sigma 0 2 (some ["bit"]) 3 (.leaf "s" .sigma 1 1 (some ["bit"]) 3)
+      { heap := [{ kind := .sigma, ndim := 1, cols := 1, rows := [[.num 1, .num 2], [.num 3, .num 4]] },
+                 { kind := .sigma, ndim := 1, cols := 1, rows := [[.num 5, .num 6]] }] }).toOption.map
+      (fun p => (p.2.heap.getD 3 default).rows) = some [[.num 1, .num 2], [.num 3, .num 4], [.num 5, .num 6]] := by
+  decide +kernel
+
 /-- does the history run? (executable) -/
 def runs : W → List Op → Bool
   | _, [] => true
@@ -487,6 +545,9 @@ end Midgard.Props.C09
 #print axioms Midgard.Props.C09.insert_same_format_keeps_rows
 #print axioms Midgard.Props.C09.insert_converts_each_epoch
 #print axioms Midgard.Props.C09.sort_key_is_field_value
+#print axioms Midgard.Props.C09.extend_time_field_content
+#print axioms Midgard.Props.C09.extend_keeps_sharing_partial
+#print axioms Midgard.Props.C09.extend_sigma_field_content
 #print axioms Midgard.Props.C09.extend_float_converts_units
 #print axioms Midgard.Props.C09.sort_is_stable_permutation
 #print axioms Midgard.Props.C09.sort_refines
